@@ -668,6 +668,14 @@ handle_new_connection(struct qb_ipcs_service *s,
 	const char suffix[] = "/qb";
 	int desc_len;
 
+	/*
+	 * The client library never asks for less than this (qb_ipcc_connect);
+	 * a peer that does must not end up with a buffer that cannot even
+	 * hold a request header.
+	 */
+	max_buffer_size = QB_MAX(max_buffer_size,
+				 sizeof(struct qb_ipc_connection_response));
+
 	c = qb_ipcs_connection_alloc(s);
 	if (c == NULL) {
 		qb_ipcc_us_sock_close(sock);
